@@ -14,6 +14,8 @@ namespace BridgeSem
 theorem and_255 (x : Nat) : x &&& 255 = x % 256 := Nat.and_two_pow_sub_one_eq_mod x 8
 theorem and_15 (x : Nat) : x &&& 15 = x % 16 := Nat.and_two_pow_sub_one_eq_mod x 4
 theorem and_7 (x : Nat) : x &&& 7 = x % 8 := Nat.and_two_pow_sub_one_eq_mod x 3
+theorem and_63 (x : Nat) : x &&& 63 = x % 64 := Nat.and_two_pow_sub_one_eq_mod x 6
+theorem and_63' (x : Nat) : 63 &&& x = x % 64 := by rw [Nat.and_comm]; exact and_63 x
 theorem and_255' (x : Nat) : 255 &&& x = x % 256 := by rw [Nat.and_comm]; exact and_255 x
 theorem and_15' (x : Nat) : 15 &&& x = x % 16 := by rw [Nat.and_comm]; exact and_15 x
 theorem and_7' (x : Nat) : 7 &&& x = x % 8 := by rw [Nat.and_comm]; exact and_7 x
@@ -76,6 +78,42 @@ theorem sub_small {w a b : Nat} (hb : b ≤ a) (ha : a < 2 ^ w) : Go.sub w a b =
   have : a + (2 ^ w - b) = (a - b) + 2 ^ w := by omega
   rw [this, Nat.add_mod_right, Nat.mod_eq_of_lt (by omega)]
 
+theorem ofS_natCast' {w n : Nat} (h : n < 2 ^ w) : Go.ofS w (n : Int) = n := by
+  unfold Go.ofS
+  have : ((n : Int) % (2 : Int) ^ w) = (n : Int) := by
+    apply Int.emod_eq_of_lt (by omega)
+    exact_mod_cast h
+  rw [this]; simp
+
+theorem divS_small {w a b : Nat} (ha : a < 2 ^ (w - 1)) (hb : b < 2 ^ (w - 1)) (hw : 0 < w) :
+    Go.divS w a b = a / b := by
+  unfold Go.divS
+  rw [toS_small ha, toS_small hb]
+  have h1 : Int.tdiv (a : Int) (b : Int) = ((a / b : Nat) : Int) := by
+    rw [Int.tdiv_eq_ediv_of_nonneg (by omega)]; simp
+  have hlt : a / b < 2 ^ w := by
+    have : a / b ≤ a := Nat.div_le_self a b
+    have : 2 ^ (w - 1) ≤ 2 ^ w := Nat.pow_le_pow_right (by omega) (by omega)
+    omega
+  rw [h1, ofS_natCast' hlt]
+
+theorem modS_small {w a b : Nat} (ha : a < 2 ^ (w - 1)) (hb : b < 2 ^ (w - 1)) (hb0 : 0 < b) (hw : 0 < w) :
+    Go.modS w a b = a % b := by
+  unfold Go.modS
+  rw [toS_small ha, toS_small hb]
+  have h1 : Int.tmod (a : Int) (b : Int) = ((a % b : Nat) : Int) := by
+    rw [Int.tmod_eq_emod_of_nonneg (by omega)]; simp
+  have hlt : a % b < 2 ^ w := by
+    have : a % b < b := Nat.mod_lt a hb0
+    have : 2 ^ (w - 1) ≤ 2 ^ w := Nat.pow_le_pow_right (by omega) (by omega)
+    omega
+  rw [h1, ofS_natCast' hlt]
+
+theorem mask64_and (x k : Nat) : Go.and x (Go.mask64 k) = x % 2 ^ k := by
+  unfold Go.and Go.mask64; exact Nat.and_two_pow_sub_one_eq_mod x k
+theorem mask64_and' (x k : Nat) : Go.and (Go.mask64 k) x = x % 2 ^ k := by
+  unfold Go.and; rw [Nat.and_comm]; exact mask64_and x k
+
 theorem and_eq (a b : Nat) : Go.and a b = a &&& b := rfl
 
 /-- rewrite the `Go.*` operations on operands that fit their type into plain arithmetic;
@@ -84,8 +122,9 @@ syntax "go_simp" : tactic
 macro_rules
   | `(tactic| go_simp) => `(tactic|
       simp (disch := omega) only [sar_small, shr_eq, ltS_small, leS_small, conv_narrow, conv_widen_u,
-        conv_widen_small, add_small, sub_small, mul_small, shl_small, toS_small, and_eq,
-        and_255, and_15, and_7, and_4, and_255', and_15', and_7', and_4',
+        conv_widen_small, add_small, sub_small, mul_small, shl_small, divS_small, modS_small, toS_small,
+        mask64_and, mask64_and', and_eq,
+        and_255, and_63, and_15, and_7, and_4, and_255', and_63', and_15', and_7', and_4',
         List.getD_cons_zero, List.getD_cons_succ, List.getD_nil,
         decide_eq_true_eq, beq_iff_eq, bne_iff_ne, ne_eq])
 
